@@ -126,3 +126,14 @@ pub fn doc_and_render(cfg: Config, src: &str) -> String {
         Err(_) => "panic".to_string(),
     }
 }
+
+pub fn attrs(node: &SyntaxNode, store: &typstyle_core::AttrStore, out: &mut String) {
+    let v = (store.is_format_disabled(node) as u8)
+        | ((store.has_comment(node) as u8) << 1)
+        | ((store.is_multiline(node) as u8) << 2)
+        | ((store.is_multiline_flavor(node) as u8) << 3);
+    out.push(std::char::from_digit(v as u32, 16).unwrap());
+    for c in node.children() {
+        attrs(c, store, out);
+    }
+}
